@@ -179,7 +179,7 @@ func (r *rwRT) ruleTmplStmts() {
 	for _, kind := range []string{"SwitchStmt", "TypeSwitchStmt"} {
 		for _, shp := range r.shapes(kind) {
 			checked := 0
-			var err error
+			var err, errGuard error
 			for _, o := range run(shp) {
 				if o.Panicked || o.St.Truncated {
 					continue
@@ -219,21 +219,22 @@ func (r *rwRT) ruleTmplStmts() {
 					// tag / assign in place
 					if kind == "SwitchStmt" {
 						if _, has := shp.leaves["stmt.Tag"]; has {
-							if e2 := matchTmpl(o.St, ob.Fields["Tag"], pLeaf{"stmt.Tag"}); e2 != nil && err == nil {
-								err = fmt.Errorf("%s: %v", shp.desc, e2)
+							if e2 := matchTmpl(o.St, ob.Fields["Tag"], pLeaf{"stmt.Tag"}); e2 != nil && errGuard == nil {
+								errGuard = fmt.Errorf("%s: %v", shp.desc, e2)
 							}
-						} else if !isNilLike(ob.Fields["Tag"]) && err == nil {
-							err = fmt.Errorf("%s: a tag appears on a tag-less switch", shp.desc)
+						} else if !isNilLike(ob.Fields["Tag"]) && errGuard == nil {
+							errGuard = fmt.Errorf("%s: a tag appears on a tag-less switch", shp.desc)
 						}
-					} else if e2 := matchTmpl(o.St, ob.Fields["Assign"], pLeaf{"stmt.Assign"}); e2 != nil && err == nil {
-						err = fmt.Errorf("%s: %v", shp.desc, e2)
+					} else if e2 := matchTmpl(o.St, ob.Fields["Assign"], pLeaf{"stmt.Assign"}); e2 != nil && errGuard == nil {
+						errGuard = fmt.Errorf("%s: the guard of the type switch is not the source's (a dropped `v :=` binding lets v in the clauses resolve to an outer variable): %v", shp.desc, e2)
 					}
 				}
 			}
 			if checked == 0 {
 				continue
 			}
-			c.check(err == nil, "RW.TMPL.SWITCH", shp.desc, pos, fmt.Sprintf("%d lowered switches: own tag/assign, clauses in source order with their own expression lists (default stays default) and their rewritten bodies", checked), fmt.Sprint(err))
+			c.check(err == nil, "RW.TMPL.SWITCH", shp.desc, pos, fmt.Sprintf("%d lowered switches: clauses in source order with their own expression lists (default stays default) and their rewritten bodies", checked), fmt.Sprint(err))
+			c.check(errGuard == nil, "RW.TMPL.SWITCH.GUARD", shp.desc, pos, fmt.Sprintf("%d lowered switches keep the source's tag / type-switch guard (with its binding) in place", checked), fmt.Sprint(errGuard))
 		}
 	}
 }
